@@ -12,7 +12,8 @@ type LLDP struct {
 }
 
 func (d *LLDP) Len() (n uint16) {
-	return 15
+	// the three mandatory TLVs: 2-byte header, subtype and id for chassis and port; 2-byte header and seconds for the ttl
+	return uint16(3+len(d.Chassis.Data)) + uint16(3+len(d.Port.Data)) + 4
 }
 
 func (d *LLDP) Read(b []byte) (n int, err error) {
@@ -21,11 +22,11 @@ func (d *LLDP) Read(b []byte) (n int, err error) {
 		return
 	}
 	n += m
-	if o, err = d.Port.Read(b); o == 0 {
+	if o, err = d.Port.Read(b[n:]); o == 0 {
 		return
 	}
 	n += o
-	if p, err = d.Chassis.Read(b); p == 0 {
+	if p, err = d.TTL.Read(b[n:]); p == 0 {
 		return
 	}
 	n += p
@@ -42,7 +43,7 @@ func (d *LLDP) Write(b []byte) (n int, err error) {
 		return
 	}
 	n += o
-	if p, err = d.Chassis.Write(b[n:]); p == 0 {
+	if p, err = d.TTL.Write(b[n:]); p == 0 {
 		return
 	}
 	n += p
